@@ -148,12 +148,12 @@ func (b *Bridge) Total() int {
 }
 
 type bridgeWriter struct {
-	hdr      http.Header
-	status   int
-	wrote    bool
-	ready    chan struct{}
-	once     sync.Once
-	pipe     *bufPipe
+	hdr    http.Header
+	status int
+	wrote  bool
+	ready  chan struct{}
+	once   sync.Once
+	pipe   *bufPipe
 }
 
 func (w *bridgeWriter) Header() http.Header { return w.hdr }
